@@ -54,6 +54,9 @@ def units(tier, variant):
     for w in LZ.words(A, 1, depth):
         for cfg in ('inf', 'finite', 'inf-vig', 'finite-angle'):
             out.append(dict(word=list(w), cfg=cfg, variant=variant))
+            if len(w) > 1 and cfg != 'inf-vig':
+                # stop on the last surface: powered surfaces in front of the stop, entrance pupil away from the first vertex
+                out.append(dict(word=list(w), cfg=cfg, variant=variant, stop=len(w) - 1))
     return out
 
 
@@ -61,7 +64,7 @@ def base_spec(unit):
     v = unit['variant']
     p = V(v)
     A = alphabet(v)
-    surfs = LZ.with_stop(LZ.fix_thickness_signs([A[i] for i in unit['word']]), 0)
+    surfs = LZ.with_stop(LZ.fix_thickness_signs([A[i] for i in unit['word']]), unit.get('stop', 0))
     if unit['cfg'] == 'finite':
         return LZ.spec(surfs, obj=p['od'][0], ap=('EPD', p['epd']), ftype='object_height', fields=(0.0, 0.6 * p['h'], p['h']),
                        waves=((0.5876, True),))
@@ -121,6 +124,16 @@ def t_dummy(sp, j, frac=0.4):
     return sp2, mp, 1.0
 
 
+def t_objdummy(sp, frac):
+    """finite object: insert a plane (air to air) in the object gap; the old first vertex moves to z = (1 - frac) * distance"""
+    sp2 = copy.deepcopy(sp)
+    d = sp['obj']
+    sp2['obj'] = frac * d
+    sp2['surfs'].insert(0, S('plane', mat=sp.get('obj_mat') or 'air', t=(1 - frac) * d))
+    mp = {k: (k if k == 0 else k + 1) for k in range(0, len(sp['surfs']) + 2)}
+    return sp2, mp, 1.0
+
+
 def t_scale(sp, s):
     sp2 = copy.deepcopy(sp)
     for q in sp2['surfs']:
@@ -147,7 +160,7 @@ def record(o, Hy, Px, Py, w):
     return dict(x=sg.x.copy(), y=sg.y.copy(), z=sg.z.copy(), L=sg.L.copy(), M=sg.M.copy(), N=sg.N.copy(), opd=sg.opd.copy())
 
 
-def compare_records(part, clause, site, cond, det, ra, rb, mp, s, skip=()):
+def compare_records(part, clause, site, cond, det, ra, rb, mp, s, skip=(), zoff=0.0):
     """rb (transformed) vs ra (original): lengths x s, cosines equal, on corresponding surfaces (k >= 1)."""
     worst = 0.0
     where = None
@@ -158,7 +171,7 @@ def compare_records(part, clause, site, cond, det, ra, rb, mp, s, skip=()):
             part.violation(PID, clause, site, cond, det, observed=[ra['x'].shape, rb['x'].shape], expected='same surface count')
             return False
         for key, fac in (('x', s), ('y', s), ('z', s), ('L', 1.0), ('M', 1.0), ('N', 1.0), ('opd', s)):
-            a, b = ra[key][ka] * fac, rb[key][kb]
+            a, b = ra[key][ka] * fac + (zoff if key == 'z' else 0.0), rb[key][kb]
             if key == 'opd':
                 # the accumulated path starts at a launch plane whose position is an arbitrary choice of the ray
                 # generator (it moves when any vertex moves); only path *differences* within one field are physical:
@@ -212,8 +225,8 @@ def run_unit(unit):
     w = 0.5876
     r0 = record(o, HY, PX, PY, w)
     part.transitions += 1
-    det0 = dict(word=unit['word'], cfg=unit['cfg'], variant=v)
-    cfgc = f"config={unit['cfg']}"
+    det0 = dict(word=unit['word'], cfg=unit['cfg'], variant=v, stop=unit.get('stop', 0))
+    cfgc = f"config={unit['cfg']}" + (',stop=last' if unit.get('stop', 0) else '')
     if np.any(np.isfinite(r0['y'][-1])):
         part.count('lenses-with-image-rays')
         part.outcome(unit['word'], unit['cfg'], r0['y'][-1][:6])
@@ -237,13 +250,13 @@ def run_unit(unit):
 
     f2_0, S0 = paraxial_seidel(o)
 
-    def apply_and_check(sp_t, mp, s, label, det, check_paraxial=True, skip=()):
+    def apply_and_check(sp_t, mp, s, label, det, check_paraxial=True, skip=(), zoff=0.0):
         ot = LZ.build(sp_t)
         part.states += 1
         rt = record(ot, HY, PX, PY, w)
         part.transitions += 1
         part.evals += 1
-        ok = compare_records(part, f'redescription-{label}', 'Optic.trace_generic', cfgc, det, r0, rt, mp, s, skip=skip)
+        ok = compare_records(part, f'redescription-{label}', 'Optic.trace_generic', cfgc, det, r0, rt, mp, s, skip=skip, zoff=zoff)
         if check_paraxial and f2_0 is not None:
             f2_t, St = paraxial_seidel(ot)
             if f2_t is not None and np.isfinite(f2_0) and abs(f2_0) < 1e6:
@@ -252,7 +265,11 @@ def run_unit(unit):
                 if np.all(np.isfinite(S0)) and np.all(np.isfinite(St)):
                     sc = max(1e-9, float(np.max(np.abs(S0))) * abs(s))
                     if np.max(np.abs(St - s * S0)) > 1e-8 * sc:
-                        part.violation(PID, f'seidel-sums-{label}', 'Aberrations.seidels', cfgc, det, observed=St, expected=s * S0,
+                        cs_ = cfgc
+                        if label == 'object-gap-dummy' and sp['surfs'][0]['mat'] == 'mirror' and \
+                                np.max(np.abs(St[:4] - s * S0[:4])) <= 1e-8 * sc:
+                            cs_ = 'first-surface-is-a-mirror,only-the-distortion-sum-changes'
+                        part.violation(PID, f'seidel-sums-{label}', 'Aberrations.seidels', cs_, det, observed=St, expected=s * S0,
                                        tol=1e-8)
         return ot, rt
 
@@ -285,6 +302,11 @@ def run_unit(unit):
             # the sag describes one hemisphere only: the tilted description is the same surface only while every hit point stays
             # well inside the hemisphere around the *new* vertex
             k_, th_ = args[0], args[1]
+            if k_ <= unit.get('stop', 0):
+                # tilting the stop surface moves the stop's centre (a different physical lens); a surface in front of the stop is
+                # the same physical surface, but the library's paraxial pupil (which ignores tilts and reads the moved vertex) is
+                # then a property of the description: only surfaces behind the stop are re-described without touching the launch
+                return False
             R_ = sp['surfs'][k_]['R']
             P_ = np.stack([r0['x'][k_ + 1], r0['y'][k_ + 1], r0['z'][k_ + 1]], axis=1)
             okk = np.all(np.isfinite(P_), axis=1)
@@ -315,6 +337,13 @@ def run_unit(unit):
         ot, rt = apply_and_check(sp_t, mp, s, kind, det, check_paraxial=(kind != 'tilt'))
         if kind == 'dummy' and args[0] == 0:
             mirrors(ot, rt, 'after-dummy', det)
+
+    # ---- finite object: a dummy plane in the object gap (the "first surface" of the description moves, the lens does not)
+    if math.isfinite(sp['obj']):
+        for frac in (0.2, 0.5, 0.9):
+            sp_t, mp, s = t_objdummy(sp, frac)
+            det = dict(det0, transformation=['object-gap-dummy', [frac]])
+            apply_and_check(sp_t, mp, s, 'object-gap-dummy', det, zoff=(1 - frac) * sp['obj'])
 
     # ---- depth-2 compositions from a reduced menu ---------------------------------------------------------------
     menu = [('dummy', (0,)), ('scale', (3.0,)), ('scale', (0.5,))]
